@@ -79,13 +79,13 @@ Proof. unfold bytes_eqb. intros. destruct (list_eq_dec N.eq_dec a b); split; con
 
 (* ------------------------------------------------------------------ starts_with *)
 Lemma sw_refl : forall p, starts_with p p = true.
-Proof. induction p; cbn; auto. rewrite N.eqb_refl. auto. Qed.
+Proof. induction p as [|q p IH]; cbn; auto. rewrite N.eqb_refl. auto. Qed.
 Lemma sw_nil : forall k, starts_with k [] = true.
 Proof. destruct k; auto. Qed.
 Lemma sw_app : forall k p, starts_with k p = true <-> exists t, k = p ++ t.
 Proof.
   intros k p. revert k. induction p; intros k.
-  - rewrite sw_nil. split; eauto.
+  - rewrite sw_nil. split; auto. intros _. exists k. auto.
   - destruct k; cbn [starts_with].
     + split; [discriminate | intros [t H]; discriminate].
     + rewrite andb_true_iff, N.eqb_eq, IHp. split.
@@ -105,19 +105,19 @@ Qed.
 Lemma sw_convex : forall p a b c, kleb a b = true -> kleb b c = true ->
   starts_with a p = true -> starts_with c p = true -> starts_with b p = true.
 Proof.
-  induction p; intros a b c Hab Hbc Ha Hc.
+  induction p as [|q p IH]; intros a b c Hab Hbc Ha Hc.
   - apply sw_nil.
-  - destruct a as [|x a]; cbn in Ha; try discriminate.
-    destruct c as [|z c]; cbn in Hc; try discriminate.
+  - destruct a as [|x a']; cbn in Ha; try discriminate.
+    destruct c as [|z c']; cbn in Hc; try discriminate.
     apply andb_true_iff in Ha as [Ex Ha]. apply andb_true_iff in Hc as [Ez Hc].
     apply N.eqb_eq in Ex, Ez. subst x z.
-    destruct b as [|y b].
+    destruct b as [|y b'].
     + unfold kleb in Hab. cbn in Hab. discriminate.
     + unfold kleb in Hab, Hbc. cbn [kcmp] in Hab, Hbc.
-      destruct (a ?= y) eqn:E1; try discriminate; destruct (y ?= a) eqn:E2; try discriminate;
-        try (rewrite N.compare_lt_iff in *; try rewrite N.compare_eq_iff in *; lia).
+      destruct (q ?= y) eqn:E1; try discriminate; destruct (y ?= q) eqn:E2; try discriminate;
+        try (rewrite ?N.compare_lt_iff, ?N.compare_eq_iff, ?N.compare_gt_iff in *; lia).
       apply N.compare_eq in E1. subst y. cbn. rewrite N.eqb_refl. cbn.
-      eapply IHp; eauto; unfold kleb; auto.
+      eapply IH; eauto; unfold kleb; auto.
 Qed.
 
 (* ------------------------------------------------------------------ lists *)
@@ -214,7 +214,7 @@ Proof. intros. inversion H. auto. Qed.
 Lemma ssorted_head : forall a m, ssorted (a :: m) -> forall x, In x m -> kltb (fst a) (fst x) = true.
 Proof. intros. inversion H; subst. rewrite Forall_forall in H4. apply H4. auto. Qed.
 
-Lemma mget_In : forall m k v, ssorted m -> (mget k m = Some v <-> In (k, v) m).
+Lemma mget_In : forall (m : smap) k v, ssorted m -> (mget k m = Some v <-> In (k, v) m).
 Proof.
   induction m as [|[k' v'] m]; intros k v Hs; cbn [mget].
   - split; [discriminate | intros []].
@@ -224,29 +224,29 @@ Proof.
       * intros H. injection H as ->. left. auto.
       * intros [H|H]. congruence. apply Hh in H. cbn in H. rewrite kltb_irrefl in H. discriminate.
     + split; [discriminate|]. intros [H|H].
-      * injection H as -> ->. rewrite kcmp_refl in E. discriminate.
+      * inversion H; subst. rewrite kcmp_refl in E. discriminate.
       * apply Hh in H. cbn in H. apply kltb_lt in H.
-        rewrite (kcmp_lt_trans _ _ _ E H) in E. rewrite kcmp_refl in *. discriminate.
-    + rewrite IHm by auto. split; auto. intros [H|H]; auto.
-      injection H as -> ->. rewrite kcmp_refl in E. discriminate.
+        pose proof (kcmp_lt_trans _ _ _ E H) as HH. rewrite kcmp_refl in HH. discriminate.
+    + rewrite IHm by auto. cbn [In]. split; auto. intros [H|H]; auto.
+      inversion H; subst. rewrite kcmp_refl in E. discriminate.
 Qed.
 
-Lemma minsert_In : forall m k v x, In x (minsert k v m) -> x = (k, v) \/ In x m.
+Lemma minsert_In : forall (m : smap) k v x, In x (minsert k v m) -> x = (k, v) \/ In x m.
 Proof.
   induction m as [|[k' v'] m]; cbn; intros k v x H.
   - destruct H as [<-|[]]. auto.
   - destruct (kcmp k k'); cbn in H.
-    + destruct H as [<-|H]; auto. destruct H; auto.
+    + destruct H as [<-|H]; auto.
     + destruct H as [<-|H]; auto.
     + destruct H as [<-|H]; auto. apply IHm in H. destruct H; auto.
 Qed.
-Lemma mremove_In : forall m k x, In x (mremove k m) -> In x m.
+Lemma mremove_In : forall (m : smap) k x, In x (mremove k m) -> In x m.
 Proof.
   induction m as [|[k' v'] m]; cbn; intros k x H; auto.
   destruct (kcmp k k'); cbn in *; auto. destruct H; auto. right. eauto.
 Qed.
 
-Lemma minsert_sorted : forall m k v, ssorted m -> ssorted (minsert k v m).
+Lemma minsert_sorted : forall (m : smap) k v, ssorted m -> ssorted (minsert k v m).
 Proof.
   induction m as [|[k' v'] m]; intros k v Hs; cbn [minsert].
   - repeat constructor.
@@ -256,19 +256,19 @@ Proof.
     + constructor; auto. apply Forall_forall. intros x [<-|Hx]; unfold klt_kv; cbn.
       * apply kltb_lt. auto.
       * eapply kltb_trans. apply kltb_lt; eauto. apply Hh in Hx. auto.
-    + constructor; auto. apply Forall_forall. intros x Hx. apply minsert_In in Hx as [->|Hx].
+    + constructor; [apply IHm; auto|]. apply Forall_forall. intros x Hx. apply minsert_In in Hx as [->|Hx].
       * unfold klt_kv. cbn. apply kltb_lt. rewrite kcmp_antisym, E. auto.
       * apply Hh. auto.
 Qed.
-Lemma mremove_sorted : forall m k, ssorted m -> ssorted (mremove k m).
+Lemma mremove_sorted : forall (m : smap) k, ssorted m -> ssorted (mremove k m).
 Proof.
   induction m as [|[k' v'] m]; intros k Hs; cbn [mremove]; auto.
   pose proof (ssorted_head _ _ Hs) as Hh. pose proof (ssorted_tail _ _ Hs) as Ht.
-  destruct (kcmp k k'); auto. constructor; auto.
+  destruct (kcmp k k'); auto. constructor; [apply IHm; auto|].
   apply Forall_forall. intros x Hx. apply mremove_In in Hx. apply Hh. auto.
 Qed.
 
-Lemma mget_minsert : forall m k v k', mget k' (minsert k v m) = if keqb k' k then Some v else mget k' m.
+Lemma mget_minsert : forall (m : smap) k v k', mget k' (minsert k v m) = if keqb k' k then Some v else mget k' m.
 Proof.
   induction m as [|[k0 v0] m]; intros k v k'; cbn [minsert mget].
   - unfold keqb. destruct (kcmp k' k); auto.
@@ -282,16 +282,16 @@ Proof.
         rewrite (kcmp_antisym k k0), E. auto.
       * rewrite IHm. unfold keqb. auto.
 Qed.
-Lemma mget_mremove : forall m k k', ssorted m -> mget k' (mremove k m) = if keqb k' k then None else mget k' m.
+Lemma mget_mremove : forall (m : smap) k k', ssorted m -> mget k' (mremove k m) = if keqb k' k then None else mget k' m.
 Proof.
   induction m as [|[k0 v0] m]; intros k k' Hs; cbn [mremove mget].
   - destruct (keqb k' k); auto.
   - pose proof (ssorted_head _ _ Hs) as Hh. pose proof (ssorted_tail _ _ Hs) as Ht.
     unfold keqb. destruct (kcmp k k0) eqn:E; cbn [mget].
-    + apply kcmp_eq in E. subst. destruct (kcmp k' k0) eqn:E2; auto.
-      destruct (mget k' m) eqn:G; auto. apply mget_In in G; auto. apply Hh in G. cbn in G.
-      apply kltb_lt in G. rewrite (kcmp_lt_trans _ _ _ E2 G) in E2.
-      rewrite kcmp_refl in E2. discriminate.
+    + apply kcmp_eq in E. subst. destruct (kcmp k' k0) eqn:E2; auto;
+        (destruct (mget k' m) eqn:G; auto; apply mget_In in G; auto; apply Hh in G; cbn in G; apply kltb_lt in G).
+      * apply kcmp_eq in E2. subst. rewrite kcmp_refl in G. discriminate.
+      * pose proof (kcmp_lt_trans _ _ _ E2 G) as HH. rewrite kcmp_refl in HH. discriminate.
     + destruct (kcmp k' k) eqn:E2; auto.
       * apply kcmp_eq in E2. subst. rewrite E. auto.
     + destruct (kcmp k' k0) eqn:E2; auto.
@@ -302,7 +302,7 @@ Proof.
 Qed.
 
 (* sorted maps with the same lookups are equal *)
-Lemma mget_head : forall k v m, mget k ((k, v) :: m) = Some v.
+Lemma mget_head : forall k (v : V) m, mget k ((k, v) :: m) = Some v.
 Proof. intros. cbn. rewrite kcmp_refl. auto. Qed.
 
 Lemma sorted_ext : forall m1 m2 : smap, ssorted m1 -> ssorted m2 ->
@@ -314,16 +314,9 @@ Proof.
     + specialize (Hext k1). rewrite mget_head in Hext. discriminate.
     + pose proof (ssorted_head _ _ H1) as Hh1. pose proof (ssorted_head _ _ H2) as Hh2.
       assert (k1 = k2).
-      { destruct (kltb_total k1 k2) as [L|[E|L]]; auto.
-        - pose proof (Hext k1) as G. rewrite mget_head in G. symmetry in G.
-          apply mget_In in G; auto. destruct G as [G|G].
-          + injection G as -> ->. auto.
-          + apply Hh2 in G. cbn in G. rewrite (kltb_trans _ _ _ G L) in L.
-            pose proof (kltb_trans _ _ _ L G). rewrite kltb_irrefl in H. discriminate.
-        - pose proof (Hext k2) as G. rewrite mget_head in G.
-          apply mget_In in G; auto. destruct G as [G|G].
-          + injection G as -> ->. auto.
-          + apply Hh1 in G. cbn in G. pose proof (kltb_trans _ _ _ G L). rewrite kltb_irrefl in H. discriminate. }
+      { destruct (kltb_total k1 k2) as [L|[E|L]]; auto; apply kltb_lt in L.
+        - pose proof (Hext k1) as G. rewrite mget_head in G. cbn [mget] in G. rewrite L in G. discriminate.
+        - pose proof (Hext k2) as G. rewrite mget_head in G. cbn [mget] in G. rewrite L in G. discriminate. }
       subst k2. pose proof (Hext k1) as G. rewrite !mget_head in G. injection G as ->.
       f_equal. apply IHm1; eauto using ssorted_tail.
       intros k. specialize (Hext k). cbn [mget] in Hext.
@@ -335,10 +328,10 @@ Proof.
         apply mget_In in G2; eauto using ssorted_tail. apply Hh2 in G2. cbn in G2. rewrite kltb_irrefl in G2. discriminate.
       * destruct (mget k m1) eqn:G1.
         { apply mget_In in G1; eauto using ssorted_tail. apply Hh1 in G1. cbn in G1.
-          apply kltb_lt in G1. rewrite (kcmp_lt_trans _ _ _ E G1) in E. rewrite kcmp_refl in E. discriminate. }
+          apply kltb_lt in G1. pose proof (kcmp_lt_trans _ _ _ E G1) as HH. rewrite kcmp_refl in HH. discriminate. }
         destruct (mget k m2) eqn:G2; auto.
         apply mget_In in G2; eauto using ssorted_tail. apply Hh2 in G2. cbn in G2.
-        apply kltb_lt in G2. rewrite (kcmp_lt_trans _ _ _ E G2) in E. rewrite kcmp_refl in E. discriminate.
+        apply kltb_lt in G2. pose proof (kcmp_lt_trans _ _ _ E G2) as HH. rewrite kcmp_refl in HH. discriminate.
 Qed.
 
 End SMap.
